@@ -285,6 +285,9 @@ def generate(repo, pid='C01', extra_imports=(), extra_opens=(), extra=None, skip
     """pid/extra/skip: tools/gen_c02.py re-emits the items IT NEEDS into `Generated.C02` and appends its own"""
     g = Gen(pid, imports=['PrysmVerif.PyPrelude', 'PrysmVerif.Model.C01'] + list(extra_imports),
             opens=['Model.C01'] + list(extra_opens))
+    if pid != 'C01':
+        # items that only C01's own theorems consume (re-emitters C02 / C03 would carry them without an obligation)
+        skip = tuple(skip) + ('mdft.cache_protocol', 'czt.cache_protocol', 'mdft.key_norm', 'czt.key_norm')
     if skip:
         _item = g.item
 
@@ -557,25 +560,35 @@ def generate(repo, pid='C01', extra_imports=(), extra_opens=(), extra=None, skip
                 fs = [x for x in fs if x in role]
                 cur = tgt
                 tgt = None
-            elif isinstance(st, ast.Assign) and isinstance(st.targets[0], ast.Name) and isinstance(st.value, ast.Call):
-                f_ = u(st.value.func)
-                arg0 = u(st.value.args[0]) if st.value.args else None
-                if arg0 != cur:
-                    raise Untranslatable(f'{u(st)} does not continue the pipeline variable {cur}')
-                if f_ == 'fft.fft2':
-                    push('.fft')
-                elif f_ == 'fft.ifft2':
-                    if len(st.value.args) != 1 or st.value.keywords:
-                        raise Untranslatable('ifft2 with extra arguments')
-                    push('.ifft')
-                else:
-                    raise Untranslatable(f'call {f_} in the pipeline')
-                cur = st.targets[0].id
-                continue
-            elif isinstance(st, ast.Assign) and isinstance(st.targets[0], ast.Name) and isinstance(st.value, ast.Subscript):
-                if u(st.value.value) != cur or u(st.value.slice).replace(' ', '') not in (':M,:N', '(:M,:N)', '0:M,0:N', '(0:M,0:N)'):
-                    raise Untranslatable(f'crop statement {u(st)}')
-                push('.crop')
+            elif isinstance(st, ast.Assign) and isinstance(st.targets[0], ast.Name) and isinstance(st.value, (ast.Call, ast.Subscript)):
+                # `x = fft.fft2(cur, ...)`, `x = fft.ifft2(cur)`, `x = cur[:M, :N]`, or these nested in one expression
+                # (`fft.ifft2(cur)[:M, :N]`): the stages are pushed innermost first
+                def apply_expr(e):
+                    if isinstance(e, ast.Name):
+                        if e.id != cur:
+                            raise Untranslatable(f'{u(st)} does not continue the pipeline variable {cur}')
+                        return
+                    if isinstance(e, ast.Subscript):
+                        if u(e.slice).replace(' ', '') not in (':M,:N', '(:M,:N)', '0:M,0:N', '(0:M,0:N)'):
+                            raise Untranslatable(f'crop statement {u(st)}')
+                        apply_expr(e.value)
+                        push('.crop')
+                        return
+                    if isinstance(e, ast.Call) and e.args:
+                        f_ = u(e.func)
+                        if f_ == 'fft.fft2':
+                            apply_expr(e.args[0])
+                            push('.fft')
+                            return
+                        if f_ == 'fft.ifft2':
+                            if len(e.args) != 1 or e.keywords:
+                                raise Untranslatable('ifft2 with extra arguments')
+                            apply_expr(e.args[0])
+                            push('.ifft')
+                            return
+                        raise Untranslatable(f'call {f_} in the pipeline')
+                    raise Untranslatable(f'expression {u(e)[:60]} in the pipeline')
+                apply_expr(st.value)
                 cur = st.targets[0].id
                 continue
             else:
@@ -594,8 +607,13 @@ def generate(repo, pid='C01', extra_imports=(), extra_opens=(), extra=None, skip
                 raise Untranslatable(f'stage {r} uses factors {sorted(used[r])}')
         ic = get_def(ft, 'ChirpZTransformExecutor.iczt2')
         body = [u(x) for x in ic.body if not (isinstance(x, ast.Expr) and isinstance(x.value, ast.Constant))]
+        # `x = <expr>; return x` and `return <expr>` are the same body
+        if len(ic.body) >= 2 and isinstance(ic.body[-1], ast.Return) and isinstance(ic.body[-1].value, ast.Name) \
+                and isinstance(ic.body[-2], ast.Assign) and len(ic.body[-2].targets) == 1 \
+                and u(ic.body[-2].targets[0]) == ic.body[-1].value.id:
+            body = body[:-2] + ['return ' + u(ic.body[-2].value)]
         if body != ['if np.iscomplexobj(ary):\n    ary = np.conj(ary)',
-                    'xformed = np.conj(self.czt2(ary, Q, samples_out, shift))', 'return xformed']:
+                    'return np.conj(self.czt2(ary, Q, samples_out, shift))']:
             raise Untranslatable(f'iczt2 body not recognised: {body}')
         return f'def cztStagesGen : List CztStage := [{", ".join(stages)}]'
     g.item('czt.pipeline', 'prysm/fttools.py:ChirpZTransformExecutor.czt2/iczt2',
@@ -654,6 +672,170 @@ def generate(repo, pid='C01', extra_imports=(), extra_opens=(), extra=None, skip
     g.item('mdft.cache', 'prysm/fttools.py:MatrixDFTExecutor._key/_setup_bases',
            lambda: get_def(ft, 'MatrixDFTExecutor._setup_bases'), mdft_cache,
            f'def mdftKeyFields : List String := {M}.mdftKeyFieldsRef\ndef mdftBuildReads : List String := {M}.mdftKeyFieldsRef')
+
+    # =========================================================================== dictionaries of the executors (protocol)
+    def cache_proto(cls, gen_name):
+        """which dictionaries `_setup_bases` probes / writes on the miss path, which the entry points index after
+        `_setup_bases(key)`, which `clear()` re-initialises  ->  a `Proto` value (lists sorted, no duplicates)"""
+        def is_empty_dict(v):
+            return (isinstance(v, ast.Dict) and not v.keys) or (isinstance(v, ast.Call) and u(v) == 'dict()')
+
+        def self_attr(n):
+            if isinstance(n, ast.Attribute) and isinstance(n.value, ast.Name) and n.value.id == 'self':
+                return n.attr
+            return None
+
+        def build():
+            c = get_def(ft, cls)
+            meths = {n.name: n for n in c.body if isinstance(n, ast.FunctionDef)}
+            for need in ('__init__', '_setup_bases', 'clear'):
+                if need not in meths:
+                    raise Untranslatable(f'{cls}.{need} not found')
+            stores = [self_attr(st.targets[0]) for st in meths['__init__'].body
+                      if isinstance(st, ast.Assign) and len(st.targets) == 1 and self_attr(st.targets[0]) and is_empty_dict(st.value)]
+            if not stores:
+                raise Untranslatable('no dictionary attribute initialised in __init__')
+
+            def sub_of(n, ctxt):
+                """self.X[<name>] with X a dictionary of the executor -> (X, name)"""
+                if isinstance(n, ast.Subscript) and isinstance(n.ctx, ctxt) and self_attr(n.value) in stores:
+                    if not isinstance(n.slice, ast.Name):
+                        raise Untranslatable(f'dictionary indexed by an expression: {u(n)}')
+                    return self_attr(n.value), n.slice.id
+                return None
+            sb = meths['_setup_bases']
+            kparam = sb.args.args[1].arg
+            body = [st for st in sb.body if not (isinstance(st, ast.Expr) and isinstance(st.value, ast.Constant))]
+            tries = [st for st in body if isinstance(st, ast.Try)]
+            ifs = [st for st in body if isinstance(st, ast.If)
+                   and any(isinstance(x, ast.Compare) and any(isinstance(o, (ast.In, ast.NotIn)) for o in x.ops) for x in ast.walk(st.test))]
+            if len(tries) == 1 and not ifs:
+                t = tries[0]
+                if len(t.handlers) != 1 or u(t.handlers[0].type) != 'KeyError' or t.orelse or t.finalbody:
+                    raise Untranslatable('try statement of _setup_bases is not `try: ... except KeyError: ...`')
+                probe = []
+                for st in t.body:
+                    if not isinstance(st, ast.Expr) or not sub_of(st.value, ast.Load):
+                        raise Untranslatable(f'statement in the probing try body: {u(st)[:60]}')
+                    probe.append(sub_of(st.value, ast.Load))
+                miss_body = t.handlers[0].body
+            elif len(ifs) == 1 and not tries:
+                i_ = ifs[0]
+                tests = i_.test.values if (isinstance(i_.test, ast.BoolOp) and isinstance(i_.test.op, ast.Or)) else [i_.test]
+                probe = []
+                for tt in tests:
+                    if not (isinstance(tt, ast.Compare) and len(tt.ops) == 1 and isinstance(tt.ops[0], ast.NotIn)
+                            and isinstance(tt.left, ast.Name) and self_attr(tt.comparators[0]) in stores):
+                        raise Untranslatable(f'probe test not recognised: {u(i_.test)}')
+                    probe.append((self_attr(tt.comparators[0]), tt.left.id))
+                if i_.orelse:
+                    raise Untranslatable('probe `if` has an else branch')
+                miss_body = i_.body
+            else:
+                raise Untranslatable('_setup_bases has no single probe (try/except KeyError or `if key not in ...`)')
+            if any(k != kparam for _, k in probe):
+                raise Untranslatable('probe does not index by the key parameter')
+            writes = []
+            for st in miss_body:
+                for n in ast.walk(st):
+                    w = sub_of(n, ast.Store)
+                    if w:
+                        # a store nested in a branch / loop of the miss path is conditional: not the protocol of the model
+                        if not (isinstance(st, ast.Assign) and any(t_ is n for t_ in st.targets)):
+                            raise Untranslatable(f'conditional / nested dictionary store: {u(st)[:60]}')
+                        if w[1] != kparam:
+                            raise Untranslatable(f'store under another key: {u(st)[:60]}')
+                        writes.append(w[0])
+            miss_nodes = {id(n) for st in miss_body for n in ast.walk(st)}
+            uses = []
+            for name, f in meths.items():
+                for n in ast.walk(f):
+                    if sub_of(n, ast.Store) and id(n) not in miss_nodes:
+                        raise Untranslatable(f'{name} stores into a dictionary outside the miss path')
+                    if isinstance(n, ast.Delete) and any(self_attr(getattr(t_, 'value', None)) in stores for t_ in n.targets):
+                        raise Untranslatable(f'{name} deletes dictionary entries')
+                    if isinstance(n, ast.Call) and isinstance(n.func, ast.Attribute) and self_attr(n.func.value) in stores \
+                            and n.func.attr in ('pop', 'popitem', 'update', 'setdefault', 'clear') and name != 'clear':
+                        raise Untranslatable(f'{name} mutates a dictionary through .{n.func.attr}()')
+                    if isinstance(n, ast.Assign) and any(self_attr(t_) in stores for t_ in n.targets) and name not in ('__init__', 'clear'):
+                        raise Untranslatable(f'{name} rebinds a dictionary attribute')
+                if name in ('__init__', '_setup_bases', 'clear', 'nbytes', '_key'):
+                    continue
+                loads = [(n.lineno, sub_of(n, ast.Load)) for n in ast.walk(f) if sub_of(n, ast.Load)]
+                if not loads:
+                    continue
+                setups = [(st.lineno, u(st.value.args[0])) for st in f.body if isinstance(st, ast.Expr) and isinstance(st.value, ast.Call)
+                          and u(st.value.func) == 'self._setup_bases' and len(st.value.args) == 1]
+                for ln, (d, k) in loads:
+                    if not any(sl < ln and sk == k for sl, sk in setups):
+                        raise Untranslatable(f'{name} indexes {d}[{k}] without a preceding self._setup_bases({k})')
+                    # the key variable is assigned once, or is a parameter of a helper (`_adjoint(self, key, ...)`) never re-assigned
+                    is_param = k in [a.arg for a in f.args.args]
+                    if len(find_assigns(f, k)) != (0 if is_param else 1):
+                        raise Untranslatable(f'{name}: key variable {k} assigned more than once')
+                    uses.append(d)
+            resets = []
+            for st in meths['clear'].body:
+                if isinstance(st, ast.Expr) and isinstance(st.value, ast.Constant):
+                    continue
+                if isinstance(st, ast.Assign) and len(st.targets) == 1 and self_attr(st.targets[0]) in stores and is_empty_dict(st.value):
+                    resets.append(self_attr(st.targets[0]))
+                elif isinstance(st, ast.Expr) and isinstance(st.value, ast.Call) and isinstance(st.value.func, ast.Attribute) \
+                        and st.value.func.attr == 'clear' and self_attr(st.value.func.value) in stores and not st.value.args:
+                    resets.append(self_attr(st.value.func.value))
+                else:
+                    raise Untranslatable(f'statement of clear(): {u(st)[:60]}')
+            fmt = lambda xs: lean_list(sorted(set(xs)))
+            return (f'def {gen_name} : Proto := {{ probe := {fmt(d for d, _ in probe)}, missWrites := {fmt(writes)}, '
+                    f'useReads := {fmt(uses)}, clearResets := {fmt(resets)} }}')
+        return build
+    g.item('mdft.cache_protocol', 'prysm/fttools.py:MatrixDFTExecutor.__init__/_setup_bases/clear/entry points',
+           lambda: get_def(ft, 'MatrixDFTExecutor'), cache_proto('MatrixDFTExecutor', 'mdftProtoGen'),
+           f'def mdftProtoGen : Proto := {M}.mdftProtoRef')
+    g.item('czt.cache_protocol', 'prysm/fttools.py:ChirpZTransformExecutor.__init__/_setup_bases/clear/entry points',
+           lambda: get_def(ft, 'ChirpZTransformExecutor'), cache_proto('ChirpZTransformExecutor', 'cztProtoGen'),
+           f'def cztProtoGen : Proto := {M}.cztProtoRef')
+
+    # =========================================================================== argument forms -> key components
+    def key_norm(fn_name, params, gen_name):
+        def build():
+            fn = get_def(ft, fn_name)
+            rows = []
+            for P in params:
+                bc = False
+                convs = []
+                for n in ast.walk(fn):
+                    if isinstance(n, ast.If) and u(n.test).replace(' ', '') == f'notisinstance({P},Iterable)':
+                        if [u(x).replace(' ', '') for x in n.body] != [f'{P}=({P},{P})'] or n.orelse:
+                            raise Untranslatable(f'scalar {P} is not broadcast to ({P}, {P})')
+                        bc = True
+                    elif isinstance(n, ast.Assign) and len(n.targets) == 1 and u(n.targets[0]) == P:
+                        v = n.value
+                        if u(v).replace(' ', '') == f'({P},{P})':
+                            continue
+                        if isinstance(v, ast.Call) and u(v.func) == 'tuple' and len(v.args) == 1:
+                            a0 = v.args[0]
+                            if u(a0) == P:
+                                convs.append('elem')
+                                continue
+                            if isinstance(a0, ast.GeneratorExp) and len(a0.generators) == 1 and u(a0.generators[0].iter) == P \
+                                    and not a0.generators[0].ifs and isinstance(a0.elt, ast.Call) and len(a0.elt.args) == 1 \
+                                    and u(a0.elt.args[0]) == u(a0.generators[0].target) and u(a0.elt.func) in ('float', 'int'):
+                                convs.append(u(a0.elt.func))
+                                continue
+                        raise Untranslatable(f'{P} re-assigned in an unrecognised way: {u(n)[:70]}')
+                convs = [c for c in convs if c != 'elem'] or ['elem']
+                if len(convs) != 1:
+                    raise Untranslatable(f'{P} converted more than once: {convs}')
+                rows.append(f'⟨"{P}", {"true" if bc else "false"}, "{convs[0]}"⟩')
+            return f'def {gen_name} : List ArgNorm := [{", ".join(rows)}]'
+        return build
+    g.item('mdft.key_norm', 'prysm/fttools.py:MatrixDFTExecutor._key', lambda: get_def(ft, 'MatrixDFTExecutor._key'),
+           key_norm('MatrixDFTExecutor._key', ('Q', 'samples_in', 'samples_out', 'shift'), 'mdftKeyNormGen'),
+           f'def mdftKeyNormGen : List ArgNorm := {M}.mdftKeyNormRef')
+    g.item('czt.key_norm', 'prysm/fttools.py:ChirpZTransformExecutor.czt2', lambda: get_def(ft, 'ChirpZTransformExecutor.czt2'),
+           key_norm('ChirpZTransformExecutor.czt2', ('Q', 'samples_out', 'shift'), 'cztKeyNormGen'),
+           f'def cztKeyNormGen : List ArgNorm := {M}.cztKeyNormRef')
 
     def mdft_wiring():
         sb = get_def(ft, 'MatrixDFTExecutor._setup_bases')
